@@ -6,6 +6,7 @@
 #include <sys/stat.h>
 #include <unistd.h>
 
+#include <algorithm>
 #include <map>
 #include <string>
 #include <vector>
@@ -247,11 +248,14 @@ struct Rec
 };
 std::vector<Rec> *recorded[C20_MAXT];
 bool thread_began[C20_MAXT];
+unsigned long long thread_key[C20_MAXT];
+int begin_order[C20_MAXT];
+int begin_counter;
 bool saved;
 
-enum { PT_CHUNK_CROSSED = 0, PT_EMPTY_LOG, PT_ONE_EVENT, PT_EXACT_CHUNK, PT_MULTI_THREAD, PT_NESTED_GE2, PT_CPU_COUNTER, PT_NO_PROCESS_NAME };
+enum { PT_CHUNK_CROSSED = 0, PT_EMPTY_LOG, PT_ONE_EVENT, PT_EXACT_CHUNK, PT_MULTI_THREAD, PT_NESTED_GE2, PT_CPU_COUNTER, PT_NO_PROCESS_NAME, PT_ID_RECYCLED };
 const char *tprobe_names[] = {"thread_crossed_chunk_boundary", "log_with_no_event", "thread_with_exactly_one_event", "thread_with_exactly_one_chunk",
-                              "two_or_more_recording_threads", "nesting_depth_ge_2", "auxiliary_cpu_counter_in_file", "no_process_name", nullptr};
+                              "two_or_more_recording_threads", "nesting_depth_ge_2", "auxiliary_cpu_counter_in_file", "no_process_name", "thread_id_reused_by_a_later_recording_thread", nullptr};
 const char *tfault_names[] = {"(unused)", "clock_jump", nullptr};
 
 void treset()
@@ -261,7 +265,10 @@ void treset()
     delete recorded[i];
     recorded[i] = new std::vector<Rec>();
     thread_began[i] = false;
+    thread_key[i] = 0;
+    begin_order[i] = 0;
   }
+  begin_counter = 0;
   saved = false;
   mkdir("/verif/build/scratch", 0777);
   snprintf(g_path, sizeof g_path, "/verif/build/scratch/c20_%d.out", (int)getpid());
@@ -278,6 +285,7 @@ void tplan_common(int tier, int global)
   unsigned k = sim_plan(8);
   tplan.nthreads = k == 0 ? 0 : 1 + (int)sim_plan((uint32_t)maxt);
   tplan.t0_records = (int)sim_plan(2);
+  tplan.sequential = sim_plan(4) == 0;
   tplan.process_name = (int)sim_plan(3) != 0;
   sim_set_clock_jumps((int)sim_plan(2));
   for (int t = 0; t < tplan.nthreads; t++) {
@@ -380,41 +388,61 @@ void tcheck()
     bool is_counter = ph->str == "C";
     evs[t].push_back(evkey(ph->str.c_str(), name->str, cat ? cat->str : "", cat != nullptr, val ? val->num : 0, is_counter && val));
   }
-  // expected per recording thread
-  int recording = 0;
+  // Threads that ran one after another can have the same OS thread id; the recorder keys its lists by
+  // that id, so such threads share one list: their events appear, in recording order, under one
+  // entry that carries the name set last.
   bool any_event = false;
-  for (int s = 0; s < tplan.nthreads; s++) {
-    if (!thread_began[s])
-      continue;
-    recording++;
+  std::vector<int> order;
+  for (int s2 = 0; s2 < tplan.nthreads; s2++)
+    if (thread_began[s2])
+      order.push_back(s2);
+  std::sort(order.begin(), order.end(), [](int x, int y) { return begin_order[x] < begin_order[y]; });
+  std::vector<std::pair<unsigned long long, std::vector<int>>> groups;
+  for (int s2 : order) {
+    bool found = false;
+    for (auto &g2 : groups)
+      if (g2.first == thread_key[s2]) {
+        g2.second.push_back(s2);
+        found = true;
+      }
+    if (!found)
+      groups.push_back({thread_key[s2], std::vector<int>(1, s2)});
+  }
+  int recording = (int)groups.size();
+  for (auto &g2 : groups) {
+    if (g2.second.size() > 1)
+      sim_probe(PT_ID_RECYCLED);
     std::vector<std::string> exp;
-    int depth = 0, maxdepth = 0;
-    for (auto &r : *recorded[s]) {
-      static const char *phn[] = {"B", "E", "i", "C"};
-      const char *cat = r.cat >= 0 ? CATS[r.cat] : nullptr;
-      bool has_cat = r.kind != C20_END && cat != nullptr;
-      exp.push_back(evkey(phn[r.kind], r.name >= 0 ? NAMES[r.name] : "", has_cat ? cat : "", has_cat, (double)r.value, r.kind == C20_COUNTER));
-      if (r.kind == C20_BEGIN)
-        maxdepth = ++depth > maxdepth ? depth : maxdepth;
-      if (r.kind == C20_END)
-        depth--;
-      any_event = true;
+    char want[16] = "";
+    for (int s2 : g2.second) {
+      int depth = 0, maxdepth = 0;
+      for (auto &r : *recorded[s2]) {
+        static const char *phn[] = {"B", "E", "i", "C"};
+        const char *cat = r.cat >= 0 ? CATS[r.cat] : nullptr;
+        bool has_cat = r.kind != C20_END && cat != nullptr;
+        exp.push_back(evkey(phn[r.kind], r.name >= 0 ? NAMES[r.name] : "", has_cat ? cat : "", has_cat, (double)r.value, r.kind == C20_COUNTER));
+        if (r.kind == C20_BEGIN)
+          maxdepth = ++depth > maxdepth ? depth : maxdepth;
+        if (r.kind == C20_END)
+          depth--;
+        any_event = true;
+      }
+      if (maxdepth >= 2)
+        sim_probe(PT_NESTED_GE2);
+      size_t n = recorded[s2]->size();
+      if (n == 1)
+        sim_probe(PT_ONE_EVENT);
+      if (n == tplan.chunk)
+        sim_probe(PT_EXACT_CHUNK);
+      if (n > tplan.chunk)
+        sim_probe(PT_CHUNK_CROSSED);
+      if (tplan.named[s2])
+        snprintf(want, sizeof want, "thr-%d", s2);
     }
-    if (maxdepth >= 2)
-      sim_probe(PT_NESTED_GE2);
-    size_t n = recorded[s]->size();
-    if (n == 1)
-      sim_probe(PT_ONE_EVENT);
-    if (n == tplan.chunk)
-      sim_probe(PT_EXACT_CHUNK);
-    if (n > tplan.chunk)
-      sim_probe(PT_CHUNK_CROSSED);
-    // find the file's tid for this thread
-    char want[16];
-    snprintf(want, sizeof want, "thr-%d", s);
+    // find the file's tid for this group
     long ftid = -1;
     for (auto &kv : tname)
-      if (tplan.named[s] ? kv.second == want : true)
+      if (want[0] ? kv.second == want : true)
         ftid = kv.first;
     if (ftid < 0) {
       sim_fail("C20:trace:thread-missing", "recording thread %s does not appear in the log", want);
@@ -422,7 +450,8 @@ void tcheck()
     }
     const std::vector<std::string> &got = evs[ftid];
     if (got.size() != exp.size()) {
-      sim_fail("C20:trace:event-count-differs", "thread %s recorded %zu events, the log holds %zu (chunk size %u)", want, exp.size(), got.size(), tplan.chunk);
+      sim_fail("C20:trace:event-count-differs", "thread %s (%zu recording threads with this thread id) recorded %zu events, the log holds %zu (chunk size %u)",
+               want, g2.second.size(), exp.size(), got.size(), tplan.chunk);
       return;
     }
     for (size_t i = 0; i < exp.size(); i++)
@@ -432,7 +461,7 @@ void tcheck()
       }
   }
   if ((int)tname.size() != recording) {
-    sim_fail("C20:trace:thread-count-differs", "%d threads recorded, the log names %zu", recording, tname.size());
+    sim_fail("C20:trace:thread-count-differs", "%d thread ids recorded, the log names %zu", recording, tname.size());
     return;
   }
   if (recording >= 2)
@@ -454,9 +483,9 @@ int stuck(int deadlock, char *cls, size_t n)
 
 void tdescribe(char *buf, size_t n)
 {
-  int k = snprintf(buf, n, "{\"api\": \"%s\", \"chunk\": %u, \"threads\": %d, \"process_name\": %d, \"thread0_records\": %d, \"events_per_thread\": [",
+  int k = snprintf(buf, n, "{\"api\": \"%s\", \"chunk\": %u, \"threads\": %d, \"process_name\": %d, \"thread0_records\": %d, \"one_after_another\": %d, \"events_per_thread\": [",
                    tplan.global_api ? "free functions (global recorder)" : "private TraceRecorder", tplan.chunk, tplan.nthreads, tplan.process_name,
-                   tplan.t0_records);
+                   tplan.t0_records, tplan.sequential);
   for (int t = 0; t < tplan.nthreads; t++)
     k += snprintf(buf + k, n - k, "%s\"%d bulk + %d scripted\"", t ? "," : "", tplan.bulk[t], tplan.nops[t]);
   snprintf(buf + k, n - k, "]}");
@@ -578,10 +607,12 @@ const C20TPlan *c20t_plan() { return &tplan; }
 const char *c20_name(int i) { return NAMES[i & 3]; }
 const char *c20_cat(int i) { return CATS[i % 3]; }
 const char *c20_path() { return g_path; }
-void c20t_thread_begin(int slot, int named)
+void c20t_thread_begin(int slot, int named, unsigned long long key)
 {
   sim_event(2000, (uint64_t)slot, (uint64_t)named);
   thread_began[slot] = true;
+  thread_key[slot] = key;
+  begin_order[slot] = ++begin_counter;
 }
 void c20t_recorded(int slot, int kind, int name, int cat, unsigned long long value)
 {
